@@ -46,14 +46,14 @@ BUILT = {
          "All permutations of dependency-closed 7-subsets of a 31-definition pool, all 5040 text orders of 7 snippets x 36 splits into files parsed as files, the bundled database reversed/sorted/dependency-reversed/rotated, and a 6-definition extension set split over two files in all assignments x 4 file endings (real `rink --dump`) must yield byte-identical registry dumps and identical error multisets.",
          "duplicated names in the shipped file are reduced to their last occurrence first (premise of the statement)", "3/C12"),
  "C13": ("exploration", "deviation-bounded exhaustive enumeration of file mutations, definition token soups, dependency cycles/chains, malformed substances, JSON truncations/edits and date-pattern soups against the real loaders under watchdog",
-         "0 and every single deviation of the bundled files, every definitions file of <=4/5 tokens, cycles of length 1..5000 through eleven namespace shapes, chains to 10000, zero-valued substance properties in 10 representations, exponent boundary values in definitions, every truncation and field edit of the currency JSON: the load must terminate without panic/abort, report what the harness can prove is a problem, and leave a usable context.",
+         "0 and every single deviation of the bundled files, every definitions file of <=4/5 tokens, cycles of length 1..5000 (thorough 10000) through eleven namespace shapes, chains to 10000, zero-valued substance properties in 10 representations, exponent boundary values in definitions, every truncation and field edit of the currency JSON: every file of <=4/5 tokens over a name alphabet (plurals, prefixed spellings, long names) and 1-2/3-definition alias graphs followed by queries, lookups and canonicalisation of every name, files with runs of up to a million blanks/continuations: the load must terminate without panic/abort/stack overflow, report what the harness can prove is a problem, and leave a context that answers.",
          "nesting deeper than realistic files is out of scope; reporting clause judged only where provable", "3/C13"),
  "C14": ("exploration", "exhaustive enumeration of boundary instants x pattern forms x zone spellings, durations, all zone names and all +-HH:MM offsets against own proleptic-Gregorian arithmetic",
          "Every boundary instant in 10 pattern forms and 11 zone spellings, (d+t)-d and (d-t)+t for 26 whole-nanosecond durations, all ordered pairs of a core of instants, every chrono-tz zone and every +-HH:MM offset (HH,MM 00..99) as conversion target.",
          "chrono-tz zone data trusted for named-zone offsets; sub-minute LMT offsets skipped", "3/C14"),
  "C15": ("model_checking", "explicit-state exploration of all query histories up to a depth bound (and a de Bruijn sequence on one long-lived context) on the real Context against a one-register model, every transition executed on the implementation",
-         "All histories over a 16-query alphabet to depth 3 (thorough 4) with the flag on (flag off: depth 2 / 4), and all histories of depth 4 (thorough 6) over 6 queries plus the settings changes flag-on / flag-off, are replayed on freshly loaded real contexts; at every transition the reply must equal that of a pristine context (shared reference) with the model's register preset, ans must equal the register, and the database must be unchanged.",
-         "model register is fed from the pristine context's replies; full registry dumps compared at history ends", "3/C15"),
+         "All histories over a 16-query alphabet to depth 3 (thorough 4) with the flag on (flag off: depth 2 / 4), and all histories of depth 4 (thorough 6) over 6 queries plus the settings changes flag-on / flag-off, are replayed on real contexts that have answered nothing before (each history in a fork()ed copy of the worker, on its private copy of a loaded, never-queried database); at every transition the reply must equal that of another never-queried copy (forked for that one reply and discarded) with the model's register preset, ans must equal the register, and the database must be unchanged.",
+         "model register is fed from the never-queried context's replies; a forked copy of a loaded context stands for a newly loaded one; full registry dumps compared at history ends", "3/C15"),
  "C16": ("exploration", "exhaustive enumeration of every substance x property x amounts (forward, inverse, wrong dimension, scaling) and of formulas over every element symbol against exact rational reference",
          "Every property of every substance for 5 amounts in both directions, scaling by k and 1/k, every element symbol with boundary counts, symbol pairs, compounds and near-miss strings.",
          "ambiguously named properties skipped (statement's restriction); intensive properties in listings not judged", "3/C16"),
@@ -61,11 +61,11 @@ BUILT = {
          "For each dimensionality the listed units must equal the dump's non-alias units of that exponent vector under their categories, and every factorization must multiply out; answers must not depend on the spelling.",
          "factorize explored up to a complexity bound", "3/C17"),
 
- "C18": ("fault_enumeration", "exhaustive enumeration of fault sequences (7 request kinds, length <= 2/3, two gap lengths) and idle-gap sequences (normal / slow-but-legal / long idle / short idle) against the real Sandbox with real child processes, one parent process per sequence",
-         "Every sequence over {normal, panic, time-limit overrun, memory exhaustion, child exit, large payload} up to the length bound, followed by two normal requests, at two inter-request gaps, and every sequence of legal requests and idle pauses around the time limit, is executed against the real parent/child code; replies are matched to requests by unique operands and process ids are tracked.",
+ "C18": ("fault_enumeration", "exhaustive enumeration of fault sequences (10 request kinds, length <= 2/3, two gap lengths), idle-gap sequences (normal / slow-but-legal / long idle / short idle) and memory sequences (normal / legal 30 MiB fill / growth refused by the limit and reported by the request) against the real Sandbox with real child processes, one parent process per sequence",
+         "Every sequence over {normal, panic, time-limit overrun (10x and 1.5x), memory exhaustion, child exit, large payload, long non-ASCII panic report, oversized request, oversized reply} up to the length bound, followed by two normal requests, at two inter-request gaps, every sequence of legal requests and idle pauses around the time limit, and every sequence of memory-heavy legal requests, is executed against the real parent/child code; replies are matched to requests by unique operands and process ids are tracked.",
          "real time: 700 ms service limit, anomalies re-run once before being believed; sequences longer than the bound are out of reach", "3/C18"),
  "C19": ("model_checking", "explicit-state BFS over allocator operation histories on the real Alloc with byte- and 8-aligned layouts (sequential) plus loom exploration of every interleaving of 2-3 threads on the allocator source derived textually from the repository file",
-         "Sequential: BFS with state canonicalisation to depth 6 (thorough 10) where every transition is replayed on a fresh real allocator against an integer byte counter. Concurrent: 448 harness bodies (2 threads x 1-2 ops unbounded, 3 threads x 1 op at preemption bound 2 / unbounded) under loom on the repository's own allocator text compiled against loom atomics, with a call/return timeline oracle for usage, limit and peak.",
+         "Sequential: BFS with state canonicalisation to depth 6 (thorough 10) where every transition is replayed on a fresh real allocator against an integer byte counter. Concurrent: 448 harness bodies (2 threads x 1-2 ops unbounded, 3 threads x 1 op at preemption bound 2 / unbounded) under loom on the repository's own allocator text compiled against loom atomics, with a call/return timeline oracle for usage, limit and peak. Both halves run twice: in a profile with debug assertions and overflow checks, and in the profile of a released build without them.",
          "loom's model of the C11 memory model; the derived source differs from the repository file only in its import header and `const fn`; more than 3 threads and longer per-thread sequences are out of reach", "3/C19"),
  "C20": ("fault_enumeration", "exhaustive enumeration of prior cache state x server behaviour x entry point on the real rink binary, and of every crash point (SIGKILL injected by strace before each file-system syscall on the cache directory)",
          "All 5 x ~14-28 x 2 scenarios are run against a fault-injecting HTTP server; for the scenarios where data arrives (thorough: all) the process is killed before each open/write/fsync/rename/unlink on the cache directory and the cache bytes, the next start and exit statuses are checked.",
